@@ -389,9 +389,51 @@ def r6(ctx, facts):
     r.instance("result-sites", n > 0, "%d return sites" % n, b.span, nontrivial=False)
 
 
+def r7(ctx, facts):
+    r = ctx.rule("R7", "pick() and fallback() agree on token awareness: a token-derived replica group is built only where the policy is token-aware (or the token was cleared centrally)", floor=2)
+    from ..util import variant_edges
+    rb = facts.one(r"^%s::routing_info$" % DP)
+    dj = dj_of(rb, facts)
+    flag = None
+    # the edge(s) on which `self.is_token_aware` is known false
+    off_edges = []
+    for u in sorted(rb.live_blocks):
+        if rb.term(u)[0] != "switch":
+            continue
+        for v in rb.succ[u]:
+            sts = dj.states_on_edge(u, v)
+            if sts and all(any(k[0] == "val" and k[1][1] and k[1][1][-1] == "is_token_aware" and in_set(val, {0}) for k, val in st.items()) for st in sts):
+                off_edges.append((u, v))
+    stores = [bb for bb in rb.live_blocks for st in rb.stmts(bb) if st[0] == "A" and st[1][1] and any(isinstance(e, list) and e[0] == "f" and e[2] == "token_with_strategy" for e in st[1][1])]
+    central = bool(off_edges) and bool(stores) and all(not (set(rb.exits) & dj.feasible_reach_edge(u, v, removed_nodes=stores)) for (u, v) in off_edges)
+    r.instance("routing-info-clears-token-when-unaware", True, "central clearing in routing_info(): %s" % central, rb.span, nontrivial=False)
+    for meth in ("pick", "fallback"):
+        b = method_bodies(facts, meth)[0]
+        d = dj_of(b, facts)
+        # the calls that are handed the token (`ts: &TokenWithStrategy`): replica lookups and replica-group constructors
+        uses = [c for bb, c in b.calls() if bb in b.live_blocks and any(a[0] in ("c", "m") and "TokenWithStrategy" in b.local_ty(a[1][0]) and "Option<" not in b.local_ty(a[1][0]) for a in c.args)]
+        for cb in closure_family(facts, b):
+            if cb.path != b.path:
+                uses += [c for bb, c in cb.calls() if bb in cb.live_blocks and False]
+        if not uses:
+            raise AnchorLost("%s(): no call that is handed the request's token found" % meth)
+        ok = central
+        bad = None
+        if not central:
+            ok = True
+            for c in uses:
+                sts = d.states_at(c.bb)
+                if not (sts and all(any(k[0] == "val" and k[1][1] and k[1][1][-1] == "is_token_aware" and in_set(val, {1}) for k, val in st.items()) for st in sts)):
+                    ok, bad = False, c
+        r.instance("token-group-only-if-token-aware:" + meth, ok,
+                   "%s() hands the request's token to %s although the policy may be token-unaware (is_token_aware is neither known true there nor is the token cleared in routing_info()): "
+                   "with token_aware(false) pick() and fallback() disagree - the picked (node, no shard) is not recognised among the fallback's (node, shard) replicas and the plan names the node twice"
+                   % (meth, fn_short(bad.name or "?") if bad else "a replica lookup"), bad.span if bad else b.span)
+
+
 def check(ctx):
     facts = inline_view(ctx.facts("default"))
-    for fn in (r1, r2, r3, r4, r5, r6):
+    for fn in (r1, r2, r3, r4, r5, r6, r7):
         try:
             fn(ctx, facts)
         except AnchorLost as ex:
